@@ -1440,10 +1440,12 @@ func cleanNumberConditions(ncs *[]NumberCondition) bool {
 				f = -f
 			}
 			if f%commonFactor == 0 {
+				j++
 				continue
 			}
 			if commonFactor%f == 0 {
 				commonFactor = f
+				j++
 				continue
 			}
 			oldCommonFactor := commonFactor
